@@ -253,6 +253,31 @@ def check_intrv(ctx, repo, rule):
               'every point receives the current interval index', msg='indx[i] is not assigned the current interval for every point', construct='indx store')
 
 
+def check_everyn_bound(ctx, repo, rule):
+    """every-n placement: the positions used to pick breakpoints out of x are bounded by nx - 1."""
+    f = repo.func(BSPLINE, 'bspline.__init__')
+    fa = FA(f)
+    picks = [n for n in walk_local(f.node) if isinstance(n, ast.Subscript) and src(n.value) == 'x' and isinstance(n.slice, ast.Name)
+             and any(isinstance(a, ast.If) and 'everyn' in src(a.test) for a in ancestors(n))]
+    ctx.need(picks, 'bspline.__init__: every-n pick x[<positions>] not found')
+    for pk in picks:
+        forms = [(d, v) for d, v in fa.defs(pk.slice) if v is not None]
+        bad = []
+        for d, v in forms:
+            s = src(v).replace(' ', '')
+            if isinstance(v, (ast.List, ast.Tuple)) and all(try_fold(e) == 0 for e in v.elts):
+                continue
+            clamped = any(isinstance(c, ast.Call) and call_name(c) in ('minimum', 'clip', 'fmin') and ('nx-1' in src(c).replace(' ', '') or 'x.size-1' in src(c).replace(' ', ''))
+                          for c in ast.walk(v))
+            safe_step = '(nx-1)//(nbkpts-1)' in s or 'int((nx-1)/(nbkpts-1))' in s
+            if not (clamped or safe_step):
+                bad.append(v)
+        ctx.check(rule, not bad, f, pk, 'every-n positions are bounded by nx - 1 (%s)' % [src(v)[:50] for d, v in forms],
+                  msg='the every-n positions `%s` reach index nx whenever nbkpts - 1 divides nx (IDL clamps an out-of-range subscript, numpy raises IndexError): '
+                      'about one in five (nx, everyn) combinations cannot build a spline at all' % (src(bad[0])[:60] if bad else ''),
+                  construct='every-n positions ' + (src(bad[0])[:60] if bad else ''))
+
+
 def check_nbkpt(ctx, repo, rule):
     f = repo.func(BSPLINE, 'bspline.__init__')
     fa = FA(f)
